@@ -144,6 +144,158 @@ func Rescoped(r *rand.Rand) Scn {
 	return s
 }
 
+// MapErrSets are the sets of kinds whose REST-mapper lookups fail during a pass.
+var MapErrSets = [][]string{{"NsThing"}, {"ClThing"}, {"NsThing", "ClThing"}, {"NsThing", "ClThing", "Ghost"}}
+
+// MapFaulted: API discovery is degraded during some passes — the REST mapper answers the lookups
+// of some kinds with a transient error that is NOT NoMatch.  Either a history of Random / Scripted
+// in which 1-3 passes (ObjectSet or ObjectSetPhase controller) run with such a mapper, usually
+// followed by a teardown (archival / deletion) whose first passes run with it too; or (Trespass)
+// an ObjectSet that lists an object it may never touch, which exists all the same.
+func MapFaulted(r *rand.Rand) Scn {
+	if r.Intn(2) == 0 {
+		return Trespass(r)
+	}
+	s := base(r)
+	passes := passSteps(s, "reconcile", "phase")
+	for k := 1 + r.Intn(3); k > 0 && len(passes) > 0; k-- {
+		st := &s.Steps[pick(r, passes)]
+		st.MapErr, st.MapErrClass = pick(r, MapErrSets), pick(r, verifphase.MapErrClasses)
+	}
+	if r.Intn(3) != 0 {
+		sp := pick(r, s.Sets)
+		if r.Intn(2) == 0 {
+			s.Steps = append(s.Steps, Step{Op: "lifecycle", Set: sp.Name, Value: "Archived"})
+		} else {
+			s.Steps = append(s.Steps, Step{Op: "delete", Set: sp.Name})
+		}
+		faulty := r.Intn(3)
+		for k := 0; k < 4; k++ {
+			st := Step{Op: "reconcile", Set: sp.Name}
+			if k < faulty {
+				st.MapErr, st.MapErrClass = pick(r, MapErrSets), pick(r, verifphase.MapErrClasses)
+			}
+			s.Steps = append(s.Steps, st)
+			for _, ph := range sp.Phases {
+				if ph.Class != "" {
+					pst := Step{Op: "phase", Set: sp.Name + "-" + ph.Name}
+					if k < faulty && r.Intn(2) == 0 {
+						pst.MapErr, pst.MapErrClass = pick(r, MapErrSets), pick(r, verifphase.MapErrClasses)
+					}
+					s.Steps = append(s.Steps, pst)
+				}
+			}
+		}
+	}
+	return s
+}
+
+// Trespass: a (mostly namespaced) ObjectSet whose phases list, next to regular objects, an object
+// outside of what it may touch — in another namespace, or of a cluster-scoped kind (with / without
+// namespace) — which roll-out refuses with PreflightError for ever.  An object of that name EXISTS,
+// and a third party has put an ownerReference to the ObjectSet (its uid; controller or plain) on it.
+// Roll-out passes and, after archival / deletion, teardown passes follow; in some of them the REST
+// mapper cannot answer for some kinds (so that the checks that would tell cannot be evaluated).
+func Trespass(r *rand.Rand) Scn {
+	s := Scn{Cluster: r.Intn(6) == 0}
+	os1 := SetSpec{Name: "os1", Revision: 1, FinCached: true}
+	if r.Intn(4) == 0 {
+		os1.Revision, os1.FinCached = 0, false // a revision that never got anywhere
+	}
+	objNS := ""
+	if s.Cluster {
+		objNS = "ns1"
+	}
+	reg := func(name string) verifphase.PObj {
+		return verifphase.PObj{Kind: "NsThing", NS: objNS, Name: name, CP: "Prevent", Payload: "x", DryRun: "accept"}
+	}
+	tres := reg("t")
+	switch r.Intn(4) {
+	case 0:
+		tres.NS = "ns2"
+	case 1:
+		tres.Kind, tres.NS = "ClThing", ""
+	case 2:
+		tres.Kind, tres.NS = "ClThing", "ns1"
+	case 3:
+		tres.Kind, tres.NS = "ClThing", "ns2"
+	}
+	names := []string{"a", "b", "c"}
+	nph := 1 + r.Intn(2)
+	at := r.Intn(nph)
+	used := 0
+	for i := 0; i < nph; i++ {
+		ph := PhaseSpec{Name: fmt.Sprintf("p%d", i+1)}
+		cnt := r.Intn(3)
+		if i != at && cnt == 0 {
+			cnt = 1
+		}
+		for k := cnt; k > 0 && used < len(names); k-- {
+			ph.Objects = append(ph.Objects, reg(names[used]))
+			used++
+		}
+		if i == at {
+			pos := r.Intn(len(ph.Objects) + 1)
+			objs := append([]verifphase.PObj{}, ph.Objects[:pos]...)
+			objs = append(objs, tres)
+			ph.Objects = append(objs, ph.Objects[pos:]...)
+		}
+		os1.Phases = append(os1.Phases, ph)
+	}
+	s.Sets = []SetSpec{os1}
+	for _, ph := range os1.Phases {
+		for _, p := range ph.Objects {
+			ns := p.NS
+			if ns == "" {
+				ns = s.ns()
+			}
+			if p.Kind == "ClThing" {
+				ns = ""
+			}
+			so := verifphase.SObj{Kind: p.Kind, NS: ns, Name: p.Name, Cache: r.Intn(4) != 0, Payload: "x", ObsGen: -1, Ready: true}
+			if p.Name == "t" {
+				switch r.Intn(5) {
+				case 0: // a stranger's object
+					so.Owners = []verifphase.Ref{{Group: "apps", Kind: "Deployment", Name: "dep", UID: "u-dep", Ctrl: true}}
+				case 1, 2:
+					so.Owners = []verifphase.Ref{s.setRef(0, true)}
+					so.Rev = "1"
+				default:
+					so.Owners = []verifphase.Ref{s.setRef(0, false)}
+					if r.Intn(2) == 0 {
+						so.Owners = append(so.Owners, verifphase.Ref{Group: "apps", Kind: "Deployment", Name: "dep", UID: "u-dep", Ctrl: true})
+					}
+				}
+			} else {
+				if r.Intn(4) == 0 {
+					continue
+				}
+				so.Owners = []verifphase.Ref{s.setRef(0, true)}
+				so.Rev = "1"
+			}
+			s.Store = append(s.Store, so)
+		}
+	}
+	pass := func(p float64) Step {
+		st := Step{Op: "reconcile", Set: "os1"}
+		if r.Float64() < p {
+			st.MapErr = pick(r, [][]string{{tres.Kind}, {tres.Kind}, {"NsThing", "ClThing"}, {"NsThing"}, {"ClThing"}})
+			st.MapErrClass = pick(r, verifphase.MapErrClasses)
+		}
+		return st
+	}
+	for k := r.Intn(3); k > 0; k-- {
+		s.Steps = append(s.Steps, pass(0.4))
+	}
+	if r.Intn(2) == 0 {
+		s.Steps = append(s.Steps, Step{Op: "lifecycle", Set: "os1", Value: "Archived"})
+	} else {
+		s.Steps = append(s.Steps, Step{Op: "delete", Set: "os1"})
+	}
+	s.Steps = append(s.Steps, pass(0.7), pass(0.4), pass(0.1), pass(0))
+	return s
+}
+
 var refusedRe = regexp.MustCompile(`(A|M) \S+ !(Conflict|Forbidden|Error|Invalid|BadRequest)|D \S+ \S+ \S+ (Forbidden|Error|Invalid|BadRequest)`)
 
 // EnvTags: input-distribution tags of the generators above.
@@ -159,6 +311,10 @@ func EnvTags(s Scn, out string) []string {
 	for _, st := range s.Steps {
 		if st.WFault != nil {
 			add("wfault")
+		}
+		if len(st.MapErr) > 0 {
+			add("mapErr")
+			add("mapErr-" + st.Op)
 		}
 		if st.Op == "rescope" {
 			add("rescope")
